@@ -535,8 +535,15 @@ Error:
             continue;
         }
         struct video_s* video = self->video + i;
+        // Stop whatever was already started. A source stops its filter, which
+        // stops its sink; where the source thread was never created the
+        // filter has to be told directly, or it (and the sink) would run
+        // forever and the next acquire_stop() would never return.
+        video->source.is_stopping = 1;
+        video->filter.is_stopping = 1;
         camera_stop(video->source.camera);
     }
+    acquire_stop(self_); // joins the workers
     self->state = DeviceState_AwaitingConfiguration;
     return AcquireStatus_Error;
 }
